@@ -354,6 +354,10 @@ class ThreadPoolServer(Server):
         Server.close(self)
         # stop producer thread
         self.polling_thread.join()
+        # terminate the connections that are being served
+        for fd in list(self.fd_to_conn):
+            self._remove_from_inactive_connection(fd)
+            self._drop_connection(fd)
         # cleanup thread pool : first fill the pool with None fds so that all threads exit
         # the blocking get on the queue of active connections. Then join the threads
         for _ in range(len(self.workers)):
